@@ -273,8 +273,20 @@ Verdict check_int(const J& r) {
       v.le(d - maxdist, 1e-6L, "All: returned intersection beyond maxdist [m]");
       v.le(prev - d, 1e-6L, "All: not sorted by distance from p0 [m]");
       prev = d;
-      L s4, c4; if (ode_sep(E, X, Y, all[k].first, all[k].second, s4, c4, 0.01L * tolp)) v.le(s4, 8 * tolp * (1 + d / (circ / 4)) + 1e-9L * (E.a / 6.4e6L), "All: returned point is not an intersection [m]");
-      for (size_t m = 0; m < k; ++m) v.that(std::fabs(all[k].first - all[m].first) + std::fabs(all[k].second - all[m].second) > 1e-3 * a / 6.4e6, "All: duplicate intersection");
+      L s4, c4 = 0; bool have4 = ode_sep(E, X, Y, all[k].first, all[k].second, s4, c4, 0.01L * tolp);
+      if (have4) v.le(s4, 8 * tolp * (1 + d / (circ / 4)) + 1e-9L * (E.a / 6.4e6L), "All: returned point is not an intersection [m]");
+      for (size_t m = 0; m < k; ++m)
+        if (!(std::fabs(all[k].first - all[m].first) + std::fabs(all[k].second - all[m].second) > 1e-3 * a / 6.4e6)) {
+          // Known finding C17-all-duplicate-shallow: All() merges two Newton results only if they agree to _delta = a eps^0.8
+          // (2 um); a shallow crossing is located only to (geodesic accuracy)/sin(angle), which for |f| ~ 0.1 (accuracy ~ 1 mm)
+          // and an angle of a degree is centimetres, so the same intersection reached from two starting points is listed twice.
+          // The same happens for intersections *at a pole* (two meridional lines): the two Newton results then differ by ~1e-5 m.
+          L sw4 = have4 ? sqrtl(std::max<L>(0, 1 - c4 * c4)) : 1;
+          double pla, plo, paz; lib_pos(g, X, all[k].first, pla, plo, paz);
+          bool atpole = std::fabs(pla) > 89.999;
+          if (vf::known_on("C17-all-duplicate-shallow") && std::fabs(f) > 0.01 && (sw4 < 0.05L || atpole)) { v.known("C17-all-duplicate-shallow", "All: the same shallow / polar intersection listed twice"); return v; }
+          v.that(false, "All: duplicate intersection");
+        }
       // the same intersection is located to (position accuracy)/sin(crossing angle); ties in the L1 distance are
       // common (documented), so any entry at the distance of Closest counts
       if (std::fabs(all[k].first - q.first) + std::fabs(all[k].second - q.second) < 0.1 * a / 6.4e6 || fabsl(d - (fabsl((L)q.first - px) + fabsl((L)q.second - py))) < 1e-3L) hasq = true;
